@@ -129,9 +129,16 @@ func c03Prop(st *CaseStats, fam int) func(t *rapid.T) {
 		}
 		bufSize := rapid.SampledFrom([]int{0, 1, 7, 64, 4096}).Draw(t, "bufSize")
 		desc := fmt.Sprintf("%s publicMerge(buf=%d)[%s ]", sc, bufSize, descs)
+		dropsBefore := append([]*roaring.Bitmap{}, drops...)
 		bs, maps, err := PublicMerge(segs, drops, bufSize)
 		if err != nil {
 			t.Fatalf("%s: %v", desc, err)
+		}
+		for i := range drops {
+			if drops[i] != dropsBefore[i] {
+				t.Fatalf("%s:\n  the merge replaced entry %d of the caller's slice of deletion bitmaps (%s -> %s): a caller that keeps the slice and adds deletions to its bitmaps later merges with other deletions than it thinks",
+					desc, i, bmString(dropsBefore[i]), bmString(drops[i]))
+			}
 		}
 		exp, wantMaps := MergeExpect(exps, drops)
 		// the slices are the caller's: growing one of them must not reach into another
